@@ -2,10 +2,12 @@
 
 C13_STUB = {
     "contractcourt.ChannelArbitrator (Start / progressStateMachineAfterRestart / relaunchResolvers, advanceState / stateStep, close-event handlers, resolveContract loop)": "real, one fresh instance per process incarnation inside a testing/synctest bubble",
-    "arbitrator log": "real boltArbitratorLog on a bbolt file behind simcore.SimKV: every durable write (CommitState, LogContractResolutions, InsertConfirmedCommitSet, InsertUnresolvedContracts, resolver Checkpoint, SwapContract, ResolveContract, WipeHistory) and every channel-db flag write of the stubs (MarkCommitmentBroadcasted, MarkChannelClosed, PutResolverReport outside a log tx, MarkChanFullyClosed) is one numbered write transaction = one crash point",
+    "arbitrator log": "real boltArbitratorLog on a bbolt file behind simcore.SimKV: every durable write (CommitState, LogContractResolutions, InsertConfirmedCommitSet, InsertUnresolvedContracts, resolver Checkpoint, SwapContract, ResolveContract, WipeHistory), every write of the real channel database (next entry) and every resolver-report write of the stub (PutResolverReport outside a log tx) is one numbered write transaction of the same file = one crash point",
+    "channel database (open / commitment broadcast / pending close / fully closed)": "real: channeldb.CreateWithBackend on the SAME SimKV file as the arbitrator log, with a real open-channel record for the simulated channel (chanstate.OpenChannel written with SyncPending + MarkAsOpen; dummy keys and funding tx, no HTLCs - the HTLC sets stay the C12 model's). cfg.MarkChannelClosed = OpenChannel.CloseChannel(summary, statuses...) and cfg.MarkCommitmentBroadcasted = OpenChannel.MarkCommitmentBroadcasted of the record loaded at boot, as newActiveChannelArbitrator installs them (the simulator, playing the chain watcher, fills RemotePub / Capacity of the summary from that record); a pending-close arbitrator gets neither (loadPendingCloseChannels). At every boot active-vs-pending-close-vs-gone is decided like ChainArbitrator.Start: FetchAllChannels (loadOpenChannels), FetchClosedChannels(true) with CloseType / CloseHeight of the stored summary (loadPendingCloseChannels); republishClosingTxs reads ChanStatusCommitBroadcasted / BroadcastedCommitment of the loaded record. 'Fully closed' and the close record compared by the oracles are read with FetchClosedChannel (IsPending, CloseType, CloseHeight). The database is created before any crash is armed (first execution of a run; later executions start from a byte copy of that file)",
     "contract resolvers (timeout, success, incoming/outgoing contest, commit sweep, anchor, breach): Launch / Resolve / Checkpoint / Encode / decode": "real",
     "restart": "SimKV fenced at the crash (later writes of old goroutines bounce), old arbitrator stopped, SimKV reopened, start state read like ChainArbitrator.Start (getStartState in one read tx), new arbitrator built like newActiveChannelArbitrator / loadPendingCloseChannels (pending-close: no chain events, no channel, CloseType/ClosingHeight from the close record), Start(beat at the current height)",
-    "ChainArbitrator.resolveContracts / ResolveContract": "simulator: on NotifyChannelResolved it writes the fully-closed flag, stops the arbitrator, calls the real WipeHistory (both writes are crash points)",
+    "ChainArbitrator.ResolveContract": "real: on a NotifyChannelResolved signal the driver (playing the resolveContracts goroutine) calls (*ChainArbitrator).ResolveContract(chanPoint) on a ChainArbitrator value built in-package with what that method touches (chanSource = the real *channeldb.DB, activeChannels = {chanPoint: the running ChannelArbitrator}, activeWatchers empty); it runs on its own goroutine to quiescence. MarkChanFullyClosed, ChannelArbitrator.Stop and WipeHistory happen in lnd's order with lnd's writes; a crash before / after each of them is enumerated. The oracle 'resolved only while the unresolved-contracts bucket is empty' is evaluated when ResolveContract is entered",
+    "PutResolverReport / FetchHistoricalChannel": "simulator (reports in an own bucket of the same file, inside the log's transaction where lnd passes one; fixed channel type)",
     "chain (notifier, mempool, counterparty), sweeper, utxo nursery, witness beacon, invoice registry, breach arbitrator, switch (DeliverResolutionMsg), final-HTLC-outcome store": "simulator; the chain script (who spends which HTLC output how and when, confirmation delay per outpoint, when a preimage turns up, when justice is served) is drawn from the tape at the close trigger and replayed unchanged in every crash execution. Chain state, mempool, nursery store, sweeper tx store, witness cache and final outcomes are durable across a crash; notifier registrations and the sweeper's pending inputs die with the process. Already-confirmed spends are re-notified on registration with their historical details, the sweeper answers an already-spent input at once (ours / ErrRemoteSpend)",
     "chain watcher": "not run; after a restart of a not-yet-closed channel whose funding output is spent the simulator re-dispatches the same close event, as the chain watcher does on its historical spend notification",
     "HTLC sets / commitments / resolutions": "C12 model (synthetic commitments with real resolution structs, anchors or legacy, dust per commitment, duplicates of hashes)",
@@ -38,7 +40,8 @@ CHECK = {
         expected_probes=["fault_crash_before", "fault_crash_after", "fault_second_crash",
                          "probe_crash_at_CommitState", "probe_crash_at_LogContractResolutions", "probe_crash_at_InsertConfirmedCommitSet",
                          "probe_crash_at_InsertUnresolvedContracts", "probe_crash_at_SwapContract", "probe_crash_at_ResolveContract",
-                         "probe_crash_at_checkpointContract", "probe_crash_at_chandb", "probe_crash_at_WipeHistory",
+                         "probe_crash_at_checkpointContract", "probe_crash_at_WipeHistory",
+                         "probe_crash_at_CloseChannel", "probe_crash_at_MarkCommitmentBroadcasted", "probe_crash_at_MarkChanFullyClosed", "probe_crash_at_PutResolverReport",
                          "probe_ref_close_local", "probe_ref_close_remote", "probe_ref_close_remote-pending", "probe_ref_close_breach", "probe_ref_close_coop",
                          "probe_ref_fully_resolved", "probe_ref_with_reports", "probe_two_stage_htlc_reached_stage_two",
                          "probe_duplicate_upstream_resolution", "probe_republish_after_restart", "probe_resweep_after_restart",
@@ -52,12 +55,12 @@ CHECK = {
 
 TEXT = {
     "C13": dict(engine="closesim", design_ref="DESIGN.md 5 C13",
-                technique="deterministic simulation with crash-point enumeration: real ChannelArbitrator + real bolt arbitrator log (on SimKV) + real resolvers in a synctest bubble; "
+                technique="deterministic simulation with crash-point enumeration: real ChannelArbitrator + real bolt arbitrator log + real channeldb (same SimKV file) + real ChainArbitrator.ResolveContract + real resolvers in a synctest bubble; "
                           "reference execution vs. one re-execution per durable write (crash before / after it, optional second crash after the restart) under an identical pre-drawn chain script",
                 level_text="For every scenario the set of durable writes of the closing state machine is enumerated from the uninterrupted run (state commits, contract resolutions, confirmed "
-                           "commit set, channel-close record, resolver insert / checkpoint / swap / resolve, resolver reports, fully-closed mark, log wipe). For each chosen write k the scenario "
+                           "commit set, commitment-broadcast mark, channel-close record (real CloseChannel), resolver insert / checkpoint / swap / resolve, resolver reports, fully-closed mark (real MarkChanFullyClosed) and log wipe in the order the real ResolveContract performs them). For each chosen write k the scenario "
                            "is re-run with the process dying before or right after write k, restarted from disk at once, and driven to the end with the same chain script. Judged against the "
-                           "uninterrupted run: start state loadable; same terminal arbitrator state and close record; channel marked fully resolved iff the reference was, and only while the "
+                           "uninterrupted run: start state loadable and the arbitrator starts; same terminal arbitrator state and close record (read from the real channel database); channel marked fully resolved in the channel database iff the reference was, and only while the "
                            "unresolved-contracts bucket is empty; same set of contract keys ever in the log (none lost, none invented) and same resolver reports (outpoint, type, outcome, spend "
                            "txid); per offered HTLC the same de-duplicated upstream resolution (fail / settle), never both unless the reference already did; same final on-chain outcomes of "
                            "received HTLCs; nothing the reference published or offered to the sweeper is missing; a two-stage HTLC claim that was seen in stage two at a quiescent point is not "
